@@ -1,8 +1,116 @@
 import MidnightZK.Model.Common
-/-! Line-protocol handler of property C13 (stub: answers `unimplemented`). -/
+import MidnightZK.Model.C13.Tower
+import MidnightZK.Model.C13.Curves
+import MidnightZK.Model.C13.BnPairing
+/-! Line-protocol handler of property C13. -/
 namespace MidnightZK.C13.Driver
+open MidnightZK MidnightZK.C13
 
-def answer (_line : String) : String := "unimplemented"
+def fmtEl (l : List Nat) : String := ",".intercalate (l.map toHex)
+def fmtOpt (l : Option (List Nat)) : String :=
+  match l with
+  | some l => fmtEl l
+  | none => "bad-op"
+
+/-- Operations on `Fp2` of one curve. `specSqr`: the squaring is a blst routine (modelled by its
+specification) rather than Rust code. -/
+def t2Op {m : Nat} [NonRes (Zn m)] [NonRes (Quad (Zn m))] [Frob (Quad (Zn m))] (bn : Bool)
+    (op : String) (args : List (List Nat)) (k : Nat) : Option String := do
+  let a ← fp2OfList? m (← args[0]?)
+  let out (x : Quad (Zn m)) : Option String := some (fmtEl (fp2ToList x))
+  let bin (f : Quad (Zn m) → Quad (Zn m) → Quad (Zn m)) : Option String := do
+    let b ← fp2OfList? m (← args[1]?)
+    out (f a b)
+  match op with
+  | "add" => bin (· + ·)
+  | "sub" => bin (· - ·)
+  | "mul" => bin (· * ·)
+  | "neg" => out (-a)
+  | "dbl" => out (Quad.double a)
+  | "sqr" => out (if bn then Quad.sqrComplex a else a * a)
+  | "inv" => if a = 0 then some "none" else out a⁻¹
+  | "nr" => out (NonRes.mulNR a)
+  | "conj" => if bn then out (Quad.conj a) else none
+  | "frob" => out (Frob.frob k a)
+  | _ => none
+
+def t6Op {m : Nat} [NonRes (Zn m)] [NonRes (Quad (Zn m))] [Frob (Quad (Zn m))] [FrobCoeffs (Quad (Zn m))]
+    (bn : Bool) (op : String) (args : List (List Nat)) (k : Nat) : Option String := do
+  let a ← fp6OfList? m (← args[0]?)
+  let out (x : Cubic (Quad (Zn m))) : Option String := some (fmtEl (fp6ToList x))
+  let bin (f : Cubic (Quad (Zn m)) → Cubic (Quad (Zn m)) → Cubic (Quad (Zn m))) : Option String := do
+    let b ← fp6OfList? m (← args[1]?)
+    out (f a b)
+  match op with
+  | "add" => bin (· + ·)
+  | "sub" => bin (· - ·)
+  | "mul" => bin (if bn then Cubic.mulK else Cubic.mulBls)
+  | "neg" => out (-a)
+  | "sqr" => out (Cubic.sqrK a)
+  | "inv" => if a = 0 then some "none" else out a⁻¹
+  | "nr" => out (NonRes.mulNR a)
+  | "frob" => out (Frob.frob k a)
+  | "mul1" =>
+    if bn then (do
+      let e ← args[1]?
+      out (Cubic.mulBy1 a (← fp2OfList? m e)))
+    else none
+  | "mul01" =>
+    if bn then (do
+      let e ← args[1]?
+      out (Cubic.mulBy01 a (← fp2OfList? m (e.take 2)) (← fp2OfList? m (e.drop 2))))
+    else none
+  | _ => none
+
+def t12Op {m : Nat} [NonRes (Zn m)] [NonRes (Quad (Zn m))] [Frob (Quad (Zn m))] [FrobCoeffs (Quad (Zn m))]
+    (bn : Bool) (op : String) (args : List (List Nat)) (k : Nat) : Option String := do
+  let a ← fp12OfList? m (← args[0]?)
+  let out (x : Tower12 (Quad (Zn m))) : Option String := some (fmtEl (fp12ToList x))
+  let bin (f : Tower12 (Quad (Zn m)) → Tower12 (Quad (Zn m)) → Tower12 (Quad (Zn m))) : Option String := do
+    let b ← fp12OfList? m (← args[1]?)
+    out (f a b)
+  let sparse (f : Tower12 (Quad (Zn m)) → Quad (Zn m) → Quad (Zn m) → Quad (Zn m) → Tower12 (Quad (Zn m))) :
+      Option String := do
+    let e ← args[1]?
+    out (f a (← fp2OfList? m (e.take 2)) (← fp2OfList? m ((e.drop 2).take 2)) (← fp2OfList? m (e.drop 4)))
+  match op with
+  | "add" => bin (· + ·)
+  | "sub" => bin (· - ·)
+  | "mul" => bin (· * ·)
+  | "neg" => out (-a)
+  | "sqr" => out (if bn then Quad.sqrK a else a * a)
+  | "inv" => if a = 0 then some "none" else out a⁻¹
+  | "conj" => out (Quad.conj a)
+  | "frob" => out (Frob.frob k a)
+  | "cyc" => if bn then out (cyclotomicSquare a) else none
+  | "mul014" => if bn then sparse mulBy014 else none
+  | "mul034" => if bn then sparse mulBy034 else none
+  | _ => none
+
+/-- `t2|t6|t12 <curve> <op> <operand> [<operand>|<extra>] [<power>]`. -/
+def towerAnswer (level cv op : String) (rest : List String) : String :=
+  let isPow := op = "frob"
+  let (argStrs, kStr) := if isPow then (rest.dropLast, rest.getLast?) else (rest, none)
+  match argStrs.mapM parseNatList?, (if isPow then kStr.bind String.toNat? else some 0) with
+  | some args, some k =>
+    let r : Option String :=
+      match cv, level with
+      | "bn", "t2" => t2Op (m := Gen.bnP) true op args k
+      | "bn", "t6" => t6Op (m := Gen.bnP) true op args k
+      | "bn", "t12" => t12Op (m := Gen.bnP) true op args k
+      | "bls", "t2" => t2Op (m := Gen.blsP) false op args k
+      | "bls", "t6" => t6Op (m := Gen.blsP) false op args k
+      | "bls", "t12" => t12Op (m := Gen.blsP) false op args k
+      | _, _ => none
+    r.getD "bad-op"
+  | _, _ => "bad-op"
+
+def answer (line : String) : String :=
+  match words line with
+  | level :: cv :: op :: rest =>
+    if level = "t2" ∨ level = "t6" ∨ level = "t12" then towerAnswer level cv op rest
+    else "bad-op"
+  | _ => "bad-op"
 
 end MidnightZK.C13.Driver
 
